@@ -145,6 +145,16 @@ def expressions(thorough: bool):
         out.append(('inst', ('inst', d, ((0, 1),)), ((1, 0),)))          # repeated instantiation
         out.append(('inst', ('inst', d, ()), ((0, 2),)))
         out.append(('lemma2', 'and_intro', d, d))                        # the same thunk used twice
+    # a generalisation whose result is consumed by a later rule (the premise must be gone from the tracker's stack by then)
+    nax = len(c02.make_lib(light=True).get_axioms())
+    allax = [('ax', i) for i in range(nax)]
+    for d in prim + allax[4:]:
+        for x in (0, 1):
+            out.append(('inst', ('gen', d, x), ((0, 3),)))
+            out.append(('dinst', ('gen', d, x), ((1, 2),)))
+            out.append(('gen', ('gen', d, x), 1 - x))
+            for d2 in allax:
+                out.append(('mp', ('gen', d, x), d2))
     # a notation-like plug whose map was built with descending keys (insertion order != key order)
     for d in prim[:4]:
         out.append(('inst', d, ((0, 14),)))
